@@ -15,7 +15,8 @@
      lock admits everybody.  Nothing in the machine stops a reader-mode holder
      from writing: that it does not is what the discipline says.
   2. `countsAtomic`    no `Rc` (non-atomic count) and no interior mutability
-     outside a lock is reachable from a type that is `Send/Sync` by `unsafe impl`.
+     outside a lock is reachable from a type that is `Send/Sync` by `unsafe impl`,
+     and none of these types except `RawList` has a `&self` method that writes.
      Machines: `countRun` (atomic read-modify-write: the count IS the number of
      live handles) and `rcRun` (load / store as separate steps: `Rc`).
   3. `closuresOwn`     a closure built from a `TypedFunc` that uses its raw code
@@ -73,6 +74,9 @@ structure UnsafeTy where
   sync : Bool
   /-- field shapes in declaration order -/
   fields : List Shape
+  /-- number of `&self` methods of the type whose body writes (through a raw
+      pointer, a field, `drop_fn` …) -/
+  sharedWriters : Nat
   deriving Repr
 
 structure RawMethod where
@@ -197,7 +201,10 @@ def lockDiscipline (f : Facts) : Bool :=
 non-atomic count or unlocked interior mutability -/
 def countsAtomic (f : Facts) : Bool :=
   !f.unsafeTypes.isEmpty
-  && f.unsafeTypes.all (fun u => u.fields.all (fun s => !s.hasRc && !s.bareCell))
+  && f.unsafeTypes.all (fun u =>
+      u.fields.all (fun s => !s.hasRc && !s.bareCell)
+      -- mutation through `&self` exists only in `RawList` (where decision 1 puts it under the lock)
+      && (u.ty == .rawList || u.sharedWriters == 0))
 
 /-- indices of the `TypedFunc` fields a closure captures (closures of edition
 ≥ 2021 capture the places they mention; older ones, and any use of `self` as a
